@@ -336,6 +336,72 @@ fn raw_event<T: DeserializeOwned + Debug>(b: &[u8]) -> R {
 fn ev_timeline(b: &[u8]) -> R {
     raw_event::<AnyTimelineEvent>(b)
 }
+
+/// What an application does with a timeline event after parsing it: reads the common fields,
+/// converts the timestamp, and uses the helper methods of the event types that have them
+/// (membership change, effective power levels and what they allow, server ACL matching, composing
+/// a reply / thread message to a received message, applying a received edit).
+fn ev_app_use(b: &[u8]) -> R {
+    use ruma_events::room::message::{AddMentions, ForwardThread, Relation, ReplyWithinThread, RoomMessageEventContent};
+    use ruma_events::{AnyMessageLikeEvent, AnyStateEvent, MessageLikeEvent, StateEvent};
+    let ev: AnyTimelineEvent = serde_json::from_slice(b).map_err(json_outer)?;
+    let mut out = format!(
+        "{} {} {} {:?} {:?} {:?}",
+        ev.event_id(),
+        ev.sender(),
+        ev.room_id(),
+        ev.origin_server_ts().to_system_time().map(|t| t.duration_since(std::time::UNIX_EPOCH).map(|d| d.as_secs()).ok()),
+        ev.transaction_id().map(|t| t.as_str().len()),
+        ev.event_type().to_string()
+    );
+    match &ev {
+        AnyTimelineEvent::State(AnyStateEvent::RoomMember(StateEvent::Original(e))) => {
+            out.push_str(&format!(" change={:?} details={:?}", e.membership_change(), e.details()));
+        }
+        AnyTimelineEvent::State(AnyStateEvent::RoomPowerLevels(e)) => {
+            let pl = e.power_levels();
+            let alice: &UserId = <&UserId>::try_from("@alice:example.org").unwrap();
+            let bob: &UserId = <&UserId>::try_from("@bob:example.org").unwrap();
+            out.push_str(&format!(
+                " pl={:?}/{:?} {} {} {} {} {} {} {}",
+                pl.for_user(alice),
+                pl.for_user(bob),
+                pl.user_can_ban_user(alice, bob),
+                pl.user_can_kick_user(bob, alice),
+                pl.user_can_unban_user(alice, bob),
+                pl.user_can_invite(bob),
+                pl.user_can_redact_event_of_other(bob),
+                pl.user_can_send_message(bob, MessageLikeEventType::RoomMessage),
+                pl.user_can_send_state(bob, StateEventType::RoomName)
+            ));
+        }
+        AnyTimelineEvent::State(AnyStateEvent::RoomServerAcl(StateEvent::Original(e))) => {
+            for s in ["example.org", "evil.example.org:8448", "[::1]", "1.2.3.4"] {
+                let sn: &ServerName = <&ServerName>::try_from(s).unwrap();
+                out.push_str(&format!(" acl({s})={}", e.content.is_allowed(sn)));
+            }
+        }
+        AnyTimelineEvent::MessageLike(AnyMessageLikeEvent::RoomMessage(MessageLikeEvent::Original(e))) => {
+            let reply = RoomMessageEventContent::text_plain("ok").make_reply_to(e, ForwardThread::Yes, AddMentions::Yes);
+            let thread = RoomMessageEventContent::text_html("ok", "<b>ok</b>").make_for_thread(e, ReplyWithinThread::Yes, AddMentions::No);
+            out.push_str(&format!(
+                " reply={} thread={}",
+                serde_json::to_string(&reply).map(|s| s.len()).unwrap_or(0),
+                serde_json::to_string(&thread).map(|s| s.len()).unwrap_or(0)
+            ));
+            if let Some(Relation::Replacement(r)) = &e.content.relates_to {
+                let mut target = RoomMessageEventContent::text_plain("original");
+                target.apply_replacement(r.new_content.clone());
+                out.push_str(&format!(" edited={}", target.body().len()));
+            }
+        }
+        AnyTimelineEvent::MessageLike(m) => {
+            out.push_str(&format!(" relations={:?}", m.relations()));
+        }
+        _ => {}
+    }
+    Ok(sum(&out))
+}
 fn ev_sync_timeline(b: &[u8]) -> R {
     raw_event::<AnySyncTimelineEvent>(b)
 }
@@ -869,6 +935,7 @@ pub static ENTRIES: &[Entry] = &[
     Entry { name: "b64.standard", traits: T_BYTES, f: b64_standard },
     Entry { name: "b64.urlsafe", traits: T_BYTES, f: b64_urlsafe },
     Entry { name: "ev.timeline", traits: T_JSON | T_BYTES, f: ev_timeline },
+    Entry { name: "ev.app_use", traits: T_JSON | T_BYTES, f: ev_app_use },
     Entry { name: "ev.sync_timeline", traits: T_JSON | T_BYTES, f: ev_sync_timeline },
     Entry { name: "ev.state", traits: T_JSON | T_BYTES, f: ev_state },
     Entry { name: "ev.sync_state", traits: T_JSON | T_BYTES, f: ev_sync_state },
